@@ -49,8 +49,19 @@ func escape(b *bytes.Buffer, r rune, force bool) {
 			b.WriteString(s)
 			break
 		}
+		if r > 0xFFFF {
+			// \u takes exactly four hex digits; above that use \x{...}
+			b.WriteString(`\x{`)
+			b.WriteString(strconv.FormatInt(int64(r), 16))
+			b.WriteRune('}')
+			break
+		}
 		b.WriteString(`\u`)
-		b.WriteString(strconv.FormatInt(int64(r), 16))
+		s := strconv.FormatInt(int64(r), 16)
+		if len(s) < 4 {
+			b.WriteString("0000"[len(s):])
+		}
+		b.WriteString(s)
 	}
 }
 
